@@ -90,5 +90,15 @@ class SourceIndex:
                     out.append(n.target.id)
         return out
 
+    def class_field_defaults(self, clsname):
+        """field name -> default value expression (ast) for dataclass style fields declared with `name: type = <literal>`"""
+        out = {}
+        if clsname in self.classes:
+            _, cd = self.classes[clsname]
+            for n in cd.body:
+                if isinstance(n, ast.AnnAssign) and isinstance(n.target, ast.Name) and n.value is not None:
+                    out[n.target.id] = n.value
+        return out
+
     def func_hash(self, fn):
         return hashlib.sha256(ast.unparse(fn).encode()).hexdigest()[:16]
